@@ -272,8 +272,8 @@ def check_preconditions(case, xx, A, T) -> bool:
     img = case["img"]
     ny, nx = img["shape"]
     if img["layout"] != "YX" and img["nb"] == ny == nx:
-        T.exclude("layout_ambiguous_bands==ny==nx")
-        return False
+        # bands == ny == nx: the *shape* no longer tells the axis order, the DataArray's dimension names still do
+        T.cls("cube_bands==ny==nx:" + img["layout"])
     g = xx.odc.geobox
     if g is None:
         T.exclude("xr_geobox_missing(C09)")
@@ -507,7 +507,7 @@ def s_img(draw, kinds):
         nb = draw(st.sampled_from(opts))
         if nb == ny == nx:  # accidental cube: ambiguous layout, keep it out (the deliberate one follows)
             nb += 1
-        if kind == "tiny" and draw(st.integers(0, 39)) == 0:  # the ambiguous cube, to be excluded and counted
+        if kind == "tiny" and draw(st.integers(0, 9)) == 0:  # the cube: the shape is ambiguous, the dimension names are not
             nb = ny = nx = draw(st.integers(1, 6))
     dtype = draw(st.sampled_from(DTYPES if not big else DTYPES + ["uint8", "int16", "uint8"]))
     # a rotated box with a one-pixel side does not survive wrap_xr -> .odc.geobox (C09's domain, excluded by the
@@ -721,9 +721,8 @@ def o_layers(case, T):
         case = dict(case, ovr_mode="fresh")  # slicing pixel-coordinate axes of a rotated array is C09's business
     transform = tuple(float(v) for v in tuple(xx.odc.geobox.transform)[:6])
     if img["layout"] != "YX" and any(h == w == img["nb"] for h, w in case["ovr_shapes"]):
-        # e.g. the 3x3 level of a 3-band band-first pyramid: raw (3,3,3) ndarray, read as band-last by the writer
-        T.exclude("overview_layer_layout_ambiguous_bands==h==w")
-        return
+        # e.g. the 3x3 level of a 3-band band-first pyramid: its dimension names say which axis is the band
+        T.cls("overview_layer_cube_bands==h==w")
     ovr_x, ovr_p = _ovr_layers(case, xx, syx, gbox)
     for ox in ovr_x:
         if ox.odc.geobox is None:
@@ -768,8 +767,7 @@ def o_existing(case, T):
     transform = tuple(float(v) for v in tuple(xx.odc.geobox.transform)[:6])
     api = case["api"]
     if api != "write_cog" and img["layout"] != "YX" and any(h == w == img["nb"] for h, w in case["ovr_shapes"]):
-        T.exclude("overview_layer_layout_ambiguous_bands==h==w")
-        return
+        T.cls("overview_layer_cube_bands==h==w")
     case2 = dict(case, ovr_mode="fresh")
     ovr_x, ovr_p = _ovr_layers(case2, xx, syx, gbox) if api != "write_cog" else ([], [])
     kw = common_kwargs(case)
